@@ -12,7 +12,8 @@ from the library's define list, constants and the order of checks from the C sou
   through `rd`/`wr`, which answer `fault` for any byte beyond that length — never a default.
 * `inet_pton`, `inet_ntop`, `getaddrinfo (AI_NUMERICHOST)` leave the library: they are the
   fields of `Platform`.  A concrete IPv4 pair `ntop4`/`pton4` (glibc's rule) is given as well.
-* `NULL` arguments and allocation failure are not modelled here (C18 covers allocation).
+* `NULL` pointer arguments: the `…P` functions at the end of the file (an `Option` argument = a pointer
+  that may be `NULL`); allocation failure is not modelled here (C18 covers allocation).
 -/
 namespace PV.SockAddr
 open PV.Generated
@@ -244,6 +245,67 @@ def new (P : Platform) (address : List UInt8) (port : UInt16) : Res (Option Addr
 def getAddress (P : Platform) : Addr → List UInt8
   | .v4 a _ => P.ntop4 a
   | .v6 a .. => P.ntop6 a
+
+/-! ## the entry points as the caller sees them: pointer arguments that may be `NULL` (= `none`)
+
+`P_SOCKET_FAMILY_UNKNOWN = 0`.  Every function tests `addr == NULL` (and `dest == NULL`, `native == NULL`,
+`address == NULL`) first and answers its failure value without touching anything. -/
+
+/-- `p_socket_address_new_from_native (native, len)` -/
+def newFromNativeP (native : Option Buf) (len : Nat) : Res (Option Addr) :=
+  match native with
+  | none => pure none                       -- `native == NULL || …` → NULL, whatever `len`
+  | some b => newFromNative b len
+
+/-- `p_socket_address_new (address, port)` -/
+def newP (P : Platform) (address : Option (List UInt8)) (port : UInt16) : Res (Option Addr) :=
+  match address with
+  | none => pure none
+  | some s => new P s port
+
+/-- `p_socket_address_to_native (addr, dest, destlen)`: flag and the destination afterwards -/
+def toNativeP (a : Option Addr) (dest : Option Buf) (destlen : Nat) : Res (Bool × Option Buf) :=
+  match a, dest with
+  | some a, some d => do
+    let (ok, d') ← toNative a d destlen
+    return (ok, some d')
+  | _, d => pure (false, d)                 -- `addr == NULL || dest == NULL || destlen == 0` → FALSE
+
+def nativeSizeP : Option Addr → Nat
+  | none => 0
+  | some a => nativeSize a
+
+def familyP : Option Addr → Nat
+  | none => 0
+  | some a => family a
+
+/-- `p_socket_address_get_address`: `none` = NULL -/
+def getAddressP (P : Platform) : Option Addr → Option (List UInt8)
+  | none => none
+  | some a => some (getAddress P a)
+
+def portP : Option Addr → UInt16
+  | none => 0
+  | some a => port a
+
+def flowInfoP : Option Addr → UInt32
+  | none => 0
+  | some a => flowInfo a
+
+def scopeIdP : Option Addr → UInt32
+  | none => 0
+  | some a => scopeId a
+
+def setFlowInfoP (a : Option Addr) (x : UInt32) : Option Addr := a.map (setFlowInfo · x)
+def setScopeIdP (a : Option Addr) (x : UInt32) : Option Addr := a.map (setScopeId · x)
+
+def isAnyP : Option Addr → Bool
+  | none => false
+  | some a => isAny a
+
+def isLoopbackP : Option Addr → Bool
+  | none => false
+  | some a => isLoopback a
 
 /-! ## concrete IPv4 text functions (glibc) -/
 
